@@ -33,7 +33,8 @@ H_ENUM = "enum E { A, B = 5 }; typedef enum E E_t; struct WE { enum E e; int arr
 def alphabet(wd):
     os.makedirs(wd, exist_ok=True)
     files = {"c11_c.h": H_C, "c11_tpl.hpp": H_TPL, "c11_bf1.h": H_BF1, "c11_bf2.h": H_BF2, "c11_static.h": H_STATIC,
-             "c11_dep.h": "#pragma once\ntypedef int dep_t;\n", "c11_abi.h": H_ABI, "c11_enum.h": H_ENUM, "c11_refs.hpp": H_REFS}
+             "c11_dep.h": "#pragma once\ntypedef int dep_t;\n", "c11_abi.h": H_ABI, "c11_enum.h": H_ENUM, "c11_refs.hpp": H_REFS,
+             "c11_stdint.h": "#include <stdint.h>\nstruct SI { uint8_t a; int_fast16_t f; uintptr_t p; };\nint32_t si_fn(uint64_t v);\n"}
     for n, t in files.items():
         with open(os.path.join(wd, n), "w") as f:
             f.write(t)
@@ -55,6 +56,10 @@ def alphabet(wd):
     ]
     J.append({"name": "refs-x86_64", "args": [p("c11_refs.hpp"), "--", "-std=c++14"]})
     J.append({"name": "refs-i686", "args": [p("c11_refs.hpp"), "--", "-std=c++14", "--target=i686-unknown-linux-gnu"]})
+    # what a generation may take from the system (include paths found through the clang executable) depends on ITS clang
+    # arguments: the same header is accepted by default and rejected without the standard include directories
+    J.append({"name": "stdint-default", "args": [p("c11_stdint.h")]})
+    J.append({"name": "stdint-nostdinc", "args": [p("c11_stdint.h"), "--", "-nostdinc"], "expect_err": True})
     for j in J:
         j["callbacks"] = {"log": True}
     return J
@@ -102,7 +107,8 @@ def run(ck, only=None):
     ref = {}
     for j in J:
         r = res[f"ref|{j['name']}"]
-        common.guard(r["status"] == "ok" and r["outs"][0].get("status") == "ok", f"C11 reference generation failed for {j['name']}: {str(r)[:300]}")
+        want = "err" if j.get("expect_err") else "ok"
+        common.guard(r["status"] == "ok" and r["outs"][0].get("status") == want, f"C11 reference generation of {j['name']} is not {want}: {str(r)[:300]}")
         ref[j["name"]] = observe(r["outs"][0], "ref")
     common.guard(len(set(ref.values())) == len(J), "C11 vacuity: two alphabet jobs have identical outputs")
     states = transitions = 0
